@@ -101,7 +101,7 @@ def gen_history_case(rng, ctx, big=0.1, n_ev=(5, 50), saveload=0.06, zero=0.05, 
             ev2.append(e)
             while rng.random() < 0.45:
                 i = e[1] if e[0] in ("merge", "saveload", "copy", "tmpmerge", "selfmerge") else e[0]
-                t = pick(rng, [None, None, 0, 1, int(rng.integers(2, 30)), CAP])
+                t = pick(rng, [None, None, 0, 1, int(rng.integers(2, 30)), CAP, CAP, pick(rng, [CAP + 1, 2**40, 2**63, 2**64 - 1])])
                 ev2.append(["q", i, pick(rng, [1, 2, 3, 10**9, 0, 1, 3]), t])
         events = ev2
     return {"type": "history", "cfg": cfg, "n": n_sk, "events": events}
